@@ -475,7 +475,13 @@ impl<'a> Gen<'a> {
                 self.feat("like");
                 let i = self.t.pick(strs.len());
                 let e = Self::col_expr(strs[i]);
-                let pat = ["a%", "%", "_", "%b", "a_", "", "%a%", "ab"][self.t.pick(8)].to_string();
+                // every pattern class over the tiny string domain: prefix, suffix, infix,
+                // exact, single-char, and interior wildcards whose prefix and suffix can
+                // overlap in a short string ('a' vs 'a%a', 'ab' vs 'ab%b')
+                const PATS: [&str; 20] = [
+                    "a%", "%", "_", "%b", "a_", "", "%a%", "ab", "a%a", "a%b", "ab%b", "a%ab", "%a%b", "_%", "%_", "_%_", "a_b", "B%", "é%", "a%%",
+                ];
+                let pat = PATS[self.t.pick(PATS.len())].to_string();
                 Expr::Like { e: Box::new(e), pat, neg: self.t.chance(30) }
             }
             10 if self.p.is_distinct_from => {
